@@ -81,6 +81,14 @@ inline long long UT(const cctz::time_point<cctz::seconds>& tp) {
 
 // load "V:<id>[#key]"; returns false when the loader rejected the bytes
 inline bool Zone(const std::string& id, cctz::time_zone* tz) {
+  if (id.compare(0, 2, "N:") == 0) {  // "N:<hex name>": a name loaded directly
+    std::string name;
+    for (size_t i = 2; i + 1 < id.size(); i += 2) {
+      auto nib = [](char c) { return c <= '9' ? c - '0' : c - 'a' + 10; };
+      name.push_back(static_cast<char>(nib(id[i]) * 16 + nib(id[i + 1])));
+    }
+    return cctz::load_time_zone(name, tz);
+  }
   return cctz::load_time_zone("V:" + id, tz);
 }
 
